@@ -337,10 +337,13 @@ func checkPacket(q parsedCfg, p packet, f fate) string {
 	}
 	loopDst := lo.Contains(p.dst)
 	if p.v6 && !q.raw.IPv6 {
-		if red != "" || f.tproxy >= 0 || f.dropped {
+		if red != "" || f.tproxy >= 0 || f.dropped || f.zone != 0 {
 			return "v6-disabled"
 		}
 		return ""
+	}
+	if z := checkZones(q, p, f); z != "" {
+		return z
 	}
 	dnsPort := q.dns && p.dport == 53
 	switch p.hook {
@@ -398,7 +401,7 @@ func checkPacket(q parsedCfg, p packet, f fate) string {
 			}
 			return ""
 		}
-		if p.ctstate != "NEW" {
+		if !natState(p.ctstate) {
 			if red != "" {
 				return "nat-non-new"
 			}
@@ -471,7 +474,7 @@ func checkPacket(q parsedCfg, p packet, f fate) string {
 		}
 		if has(q.kubeVirt, p.inIf) && p.inIf != "lo" {
 			// KUBE_VIRT_INTERFACES (outside the property's grammar): treated as outbound, by included ranges only
-			if p.ctstate != "NEW" {
+			if !natState(p.ctstate) {
 				if red != "" {
 					return "nat-non-new"
 				}
@@ -497,7 +500,7 @@ func checkPacket(q parsedCfg, p packet, f fate) string {
 			}
 			return "inbound_dropped"
 		}
-		if p.ctstate != "NEW" {
+		if !natState(p.ctstate) {
 			if red != "" {
 				return "nat-non-new"
 			}
@@ -564,6 +567,58 @@ func pairedClause(cfgTokens []string, c rawCfg, q parsedCfg, rs *loaded) string 
 }
 
 // checkTproxyInbound: the inbound clauses in TPROXY mode (mangle table).
+// checkZones: the conntrack zones of DNS capture (addDNSConntrackZones), stated from the documented intent -
+// "traffic that goes from istio to DNS servers and vice versa is zone 1, traffic from DNS client to istio and
+// vice versa is zone 2" - so that a captured UDP query and the agent's answer to it meet in one zone, the
+// agent's upstream query and the resolver's answer in the other, and nothing else is moved out of the default zone.
+func checkZones(q parsedCfg, p packet, f fate) string {
+	want := uint64(0)
+	server := func(a netip.Addr) bool {
+		if q.raw.CaptureAllDNS {
+			return true
+		}
+		l := q.raw.DNSV4
+		if p.v6 {
+			l = q.raw.DNSV6
+		}
+		for _, s := range l {
+			if x, err := netip.ParseAddr(s); err == nil && x == a {
+				return true
+			}
+		}
+		return false
+	}
+	if q.dns && p.proto == "udp" {
+		switch {
+		case p.hook == "OUTPUT" && (has(q.uids, p.uid) || has(q.gids, p.gid)):
+			if p.dport == 53 {
+				want = 1 // the agent asks an upstream resolver
+			} else if p.sport == 15053 {
+				want = 2 // the agent answers an application
+			}
+		case p.hook == "OUTPUT":
+			if p.dport == 53 && server(p.dst) {
+				want = 2 // an application asks a captured resolver
+			}
+		case p.hook == "PREROUTING":
+			if p.sport == 53 && server(p.src) {
+				want = 1 // a resolver answers the agent
+			}
+		}
+	}
+	if want != 0 {
+		hit("dns_zones.zone-" + strconv.FormatUint(want, 10))
+	}
+	if f.zone != want {
+		return "dns_conntrack_zone:want-" + strconv.FormatUint(want, 10) + "-got-" + strconv.FormatUint(f.zone, 10)
+	}
+	// a UDP query handed to the agent must sit in the zone the agent's answers are put into
+	if p.proto == "udp" && f.redirect == 15053 && f.zone != 2 {
+		return "dns_conntrack_zone:captured-query-outside-zone-2"
+	}
+	return ""
+}
+
 func checkTproxyInbound(q parsedCfg, p packet, f fate, loopDst bool) string {
 	if f.dropped {
 		if q.raw.DropInvalid && p.ctstate == "INVALID" {
@@ -794,7 +849,9 @@ func oracle(stream, in, outPath string) {
 			}
 			switch {
 			case res.exit >= 90:
-				verdict = "FAIL command_flow:harness-error-" + strconv.Itoa(res.exit)
+				// the child could not be started / could not set its case up (after retries): a fact about the
+				// machine, reported as a harness error, never as a violation
+				verdict = "HARNESS command-child-exit-" + strconv.Itoa(res.exit)
 			case refuse && res.exit == 0:
 				verdict = "FAIL command_flow:accepted-what-must-be-refused:" + why + " via=" + e.viaToken()
 			case !refuse && res.exit != 0:
@@ -861,6 +918,18 @@ func oracle(stream, in, outPath string) {
 				for _, l := range append(append([]string{}, cur.v4...), cur.v6...) {
 					if strings.Count(l, "--gid-owner") > 64 && verdict == "" {
 						verdict = "FAIL owner-groups-limit " + strconv.Itoa(strings.Count(l, "--gid-owner")) + "_matches_in_one_rule"
+					}
+				}
+				// every line fits the restore parser (254 arguments, three of them its own: 251 words). Recorded class
+				// c20:owner-groups-over-argc-limit, excluded by its cause: the one owner-group rule of 50..64 groups
+				for _, l := range append(append([]string{}, cur.v4...), cur.v6...) {
+					if n := len(strings.Fields(l)); n > 251 && verdict == "" {
+						g := strings.Count(l, "--gid-owner")
+						if g >= 50 && g <= 64 && n == 5*g+4 && strings.HasPrefix(l, "-A ISTIO_OUTPUT -m owner ! --gid-owner") {
+							hit("restore_argc.excluded-known-owner-groups-line")
+						} else {
+							verdict = "FAIL restore-argc-limit " + strconv.Itoa(n) + "_words_in_one_line"
+						}
 					}
 				}
 				// IPv4 and IPv6 express the same policy: the v6 rule set exists exactly when IPv6 is enabled
